@@ -137,8 +137,10 @@ Definition tagless (n : node) : node :=
   end.
 
 (* Python result + the left-hand object after the call *)
-Record mres := mkres { ret : node; inplace : node }.
-Definition same (n : node) : mres := mkres n n.
+Record mres := mkres { ret : node; inplace : node; ret_is_lhs : bool }.
+Definition same (n : node) : mres := mkres n n true.
+(* Python returned another object [r]; the left-hand object is now [l] *)
+Definition other (r l : node) : mres := mkres r l false.
 
 Inductive shortcut := KeepLeft | TakeRight | GoOn.
 
@@ -181,7 +183,7 @@ Definition merge_sets (l r : node) (nc : coord) : outcome mres :=
       do mode <- set_merge_mode cfg nc;
       match mode with
       | SLeft => Ok (same l)
-      | SRight => Ok (mkres r l)
+      | SRight => Ok (other r l)
       | SUnique =>
           match r with
           | NSet _ rels | NSeq _ rels => Ok (same (NSet li (sets_loop rels (map tagless lels) lels)))
@@ -218,12 +220,12 @@ Definition merge_simple_lists (l r : node) (nc : coord) : outcome mres :=
       do mode <- array_merge_mode cfg nc;
       match mode with
       | ALeft => Ok (same l)
-      | ARight => Ok (mkres r l)
+      | ARight => Ok (other r l)
       | _ =>
           let rels := match r with NSeq _ e => e | _ => [] end in
           let s := fold_left (simple_step (match mode with AUnique => true | _ => false end)) rels
                              (mkslst li lels lels true (map tagless lels)) in
-          Ok (mkres (NSeq (cur_i s) (cur s)) (NSeq li (orig s)))
+          Ok (mkres (NSeq (cur_i s) (cur s)) (NSeq li (orig s)) (is_orig s))
       end
   | _ => Raise MergeExc
   end.
@@ -386,8 +388,9 @@ Definition merge_lists_top (l r : node) (nc : coord) : outcome mres :=
   | NSeq _ (first :: _) =>
       if is_map first then
         do m <- merge_rec r nc l;
-        (* LEFT: same object; RIGHT: rhs returned, lhs untouched; else in place *)
-        Ok (if N.eqb (node_oid m) (node_oid l) then same m else mkres m l)
+        do mode <- aoh_merge_mode cfg nc;      (* the lookup merge_rec just made *)
+        (* RIGHT: rhs returned, lhs untouched; LEFT: the lhs itself; else merged in place *)
+        Ok (match mode with ORight => other m l | _ => same m end)
       else merge_simple_lists l r nc
   | _ => do m <- merge_rec r nc l; Ok (same m)
   end.
@@ -399,7 +402,7 @@ Definition root_coord (n : node) : coord := mkcoord (node_oid n) None None.
 (* lhs.yaml_set_tag(rhs.tag.value) acts on the left-hand object *)
 Definition tag_sync (m : mres) (l r : node) : outcome mres :=
   do l' <- yaml_set_tag (inplace m) (node_tag r);
-  Ok (mkres (if N.eqb (node_oid (ret m)) (node_oid l) then l' else ret m) l').
+  Ok (mkres (if ret_is_lhs m then l' else ret m) l' (ret_is_lhs m)).
 
 Definition insert_dict (l r : node) : outcome mres :=
   match l with
@@ -413,7 +416,7 @@ Definition insert_dict (l r : node) : outcome mres :=
       do mode <- hash_merge_mode cfg (root_coord r);
       do m <- match mode with
               | HLeft => Ok (same l)
-              | HRight => Ok (mkres r l)
+              | HRight => Ok (other r l)
               | HDeep => do x <- merge_rec r (root_coord r) l; Ok (same x)
               end;
       tag_sync m l r
@@ -454,7 +457,7 @@ Definition insert_scalar_root (l r : node) : outcome mres :=
       do m <- merge_sets l (NSet fresh_info [r]) (root_coord r);
       Ok (same (inplace m))
   | NMap _ _ => Raise MergeExc
-  | NLeaf _ _ => Ok (mkres r l)
+  | NLeaf _ _ => Ok (other r l)
   end.
 
 Definition is_none (n : node) : bool := match n with NLeaf _ PNone => true | _ => false end.
